@@ -79,7 +79,7 @@ ResolveNearest(ed, chain) ==
   LET d == EditionDefaults(ed)
       V(k) == chain[Nearest(chain, k)][k]
       Set(k) == Nearest(chain, k) # 0
-  IN [fp     |-> IF Set("fp") THEN V("fp") # "IMPLICIT" ELSE d.fp,
+  IN [fp     |-> IF Set("fp") THEN V("fp") \in {"EXPLICIT", "LEGACY_REQUIRED"} ELSE d.fp,
       lr     |-> IF Set("fp") THEN V("fp") = "LEGACY_REQUIRED" ELSE d.lr,
       open   |-> IF Set("et") THEN V("et") = "OPEN" ELSE d.open,
       packed |-> IF Set("rfe") THEN V("rfe") = "PACKED" ELSE d.packed,
